@@ -609,7 +609,7 @@ theorem starOf_tipNames (t : T) (h : 2 ≤ (t.splits.filter (·.tip)).length) :
   unfold allTipNames
   have : ((starOf t).kids.length == 1) = false := by simpa using hlen
   rw [this]
-  simp only [Bool.false_eq_true, if_false]
+  simp only [Bool.false_eq_true, if_false, List.nil_append]
   rw [hk, ← tipSplitsL t.kids]
   unfold T.splits
   generalize (splitsL t.kids).filter (·.tip) = l
@@ -734,5 +734,50 @@ def outValues : Out → Option (List (List String × Rat × Rat))
   | _ => none
 
 def outSplits (o : Out) : Option (List (List String)) := (outValues o).map (·.map (·.1))
+
+/-! ## Part 9: the re-rooting of tip-rooted inputs (5a3a76a) -/
+
+/-- two trees rooted at the tip `a`: `((b:1,c:1,(d:1,e:1):1):2)a;` and `(((d:1,e:3):3,c:1,b:1):4)a;` -/
+def exTipRoot : List T :=
+  [.node ⟨"a", []⟩ 0 [exInner 2 [exTip "b" 1, exTip "c" 1, exInner 1 [exTip "d" 1, exTip "e" 1]]],
+   .node ⟨"a", []⟩ 0 [exInner 4 [exInner 3 [exTip "d" 1, exTip "e" 3], exTip "c" 1, exTip "b" 1]]]
+
+theorem rerootTip_of_deg (t : T) (h : 2 ≤ t.kids.length) : rerootTip t = t := by
+  unfold rerootTip
+  match hk : t.kids, h with
+  | [], h => simp at h
+  | [x], h => simp at h
+  | x :: y :: r, _ => rfl
+
+theorem map_rerootTip_of_deg (ts : List T) (h : ∀ t ∈ ts, 2 ≤ t.kids.length) : ts.map rerootTip = ts := by
+  induction ts with
+  | nil => rfl
+  | cons a l ih =>
+    rw [List.map_cons, rerootTip_of_deg a (h a (by simp)), ih (fun t ht => h t (by simp [ht]))]
+
+theorem rerootTip_cases (t : T) : rerootTip t = t ∨
+    ∃ d p e dv pv k kr, t = .node d p [(e, .node dv pv (k :: kr))] ∧
+      rerootTip t = .node dv 0 ((k :: kr).take pv ++ (e, .node d 0 []) :: (k :: kr).drop pv) := by
+  match t with
+  | .node d p [] => exact Or.inl rfl
+  | .node d p (x :: y :: r) => exact Or.inl rfl
+  | .node d p [(e, .node dv pv [])] => exact Or.inl rfl
+  | .node d p [(e, .node dv pv (k :: kr))] => exact Or.inr ⟨d, p, e, dv, pv, k, kr, rfl, rfl⟩
+
+theorem rerootTip_deg (t : T) (h : rerootTip t ≠ t) : 2 ≤ (rerootTip t).kids.length := by
+  rcases rerootTip_cases t with h' | ⟨d, p, e, dv, pv, k, kr, rfl, h'⟩
+  · exact absurd h' h
+  · rw [h']
+    show 2 ≤ ((k :: kr).take pv ++ (e, T.node d 0 []) :: (k :: kr).drop pv).length
+    rw [List.length_append, List.length_cons]
+    have : ((k :: kr).take pv).length + ((k :: kr).drop pv).length = (k :: kr).length := by
+      rw [← List.length_append, List.take_append_drop]
+    simp only [List.length_cons] at this ⊢
+    omega
+
+theorem rerootTip_idem (t : T) : rerootTip (rerootTip t) = rerootTip t := by
+  by_cases h : rerootTip t = t
+  · rw [h, h]
+  · exact rerootTip_of_deg _ (rerootTip_deg t h)
 
 end Gotree.C09
